@@ -778,7 +778,7 @@ package router
 // the listener goroutine: when the accept loop ends, the listener AND the UDP socket under it are closed
 //@ closure router.startQuicServer$1
 //@   props C18
-//@   requires s != nil && routerReady(s.r) && s.l != nil && s.logger != nil && l != nil
+//@   requires s != nil && routerReady(s.r) && s.l != nil && s.logger != nil && l != nil && uc != nil
 //@   ghost nUcClose int = 0
 //@   ghost nLClose int = 0
 //@   oncall PacketConn.Close?: nUcClose = nUcClose + 1
